@@ -78,6 +78,27 @@ def _forms(sp, opts):
     return a, rebuilt, dec
 
 
+def _unencodable_twin(sp):
+    """The same block with a 300-character label on its first item (constructors accept that; writing
+    it raises), or None for kinds without labels / empty blocks."""
+    import copy
+
+    t = sp["type"]
+    key = {R.T_OPT: "name"}.get(t, "label")
+    twin = copy.deepcopy(sp)
+    for k in ("tracks", "items", "channels", "events"):
+        if k in twin and twin[k]:
+            it = twin[k][0]
+            d = it[1] if isinstance(it, tuple) else it
+            if key in d:
+                d[key] = "L" * 300
+                try:
+                    return specs.build(twin)
+                except Exception:  # noqa: BLE001
+                    return None
+    return None
+
+
 def _gappy(sp):
     return "." in gen.spec_label(sp) if sp["type"] in gen.RLE_TYPES else False
 
@@ -87,6 +108,16 @@ def check_base(sp, opts, acc):
     lab = gen.spec_label(sp)
     a, rebuilt, dec = _forms(sp, opts)
     kind = "gaps" if _gappy(sp) else f"fmt{sp['format']}"
+    # a comparison that cannot be carried out (one side holds a label that cannot be encoded) comes first:
+    # whatever it does, the comparisons after it must be judged on their own
+    bad = _unencodable_twin(sp)
+    if bad is not None:
+        for x, y in ((bad, a), (a, bad)):
+            try:
+                x == y  # noqa: B015
+            except Exception:  # noqa: BLE001
+                pass
+            acc.n["transitions"] += 1
     for what, b in (("a == a", a), ("a == rebuilt(a)", rebuilt), ("a == decode(encode(a))", dec)):
         acc.n["transitions"] += 2
         acc.n["pairs"] += 1
@@ -182,6 +213,34 @@ def files_shard(_):
         ("version differs", ("ref", 3, [ev, em], 1), ("ref", 3, [ev, em], 2), False),
         ("empty vs one block", ("ref", 2, [], 1), ("ref", 2, [ev], 1), False),
     ]
+    # files written by other software: an unused slot between live blocks
+    def mk_hole(name, blocks):
+        path = os.path.join(tmp, name)
+        open(path, "wb").write(R.build_file(4, [rec(b) for b in blocks], hole_at=1))
+        return path
+
+    hole_cases = [("hole files, same blocks", [em, ev], [em, ev], True),
+                  ("hole files, block behind the hole differs", [em, ev], [em, ev2], False),
+                  ("hole files, block before the hole differs", [em, ev], [em2, ev], False)]
+    for label, A, B, want in hole_cases:
+        acc.n["states"] += 1
+        acc.n["evaluations"] += 1
+        acc.n["nontrivial"] += 1
+        pa, pb = mk_hole("ha.tdf", A), mk_hole("hb.tdf", B)
+        wit = {"files": label}
+        try:
+            with n.tdf.Tdf(pa) as fa, n.tdf.Tdf(pb) as fb:
+                r1, r2 = fa == fb, fb == fa
+            acc.n["transitions"] += 2
+        except Exception as e:  # noqa: BLE001
+            acc.violation("eq-raises", f"{PROP}:files:eq-raises:{type(e).__name__}", wit, f"{label}: {type(e).__name__}: {e}")
+            continue
+        if bool(r1) != want or bool(r2) != want:
+            clause = "equal-content-unequal" if want else "different-content-equal"
+            acc.violation(clause, f"{PROP}:files:{clause}:{label}", wit, f"{label}: == gives {r1}/{r2}, expected {want}")
+        else:
+            acc.outcomes[f"files:hole:{'equal' if want else 'unequal'}"] += 1
+            acc.n["traces"] += 1
     for label, A, B, want in cases:
         acc.n["states"] += 1
         acc.n["evaluations"] += 1
